@@ -51,6 +51,9 @@ type cluOp struct {
 	NewName  string            `json:"new_name,omitempty"`
 	Stdin    bool              `json:"stdin,omitempty"`
 	IgnHook  bool              `json:"ignore_hook,omitempty"`
+	// ClientGone: the create goes through the RPC handler and the client's stream refuses
+	// every message from this one on
+	ClientGone int `json:"client_gone,omitempty"`
 }
 
 type cluH struct{}
@@ -293,6 +296,10 @@ func (cluH) Generate(property string, seed uint64, tier string) *Case {
 			conc = g.IntN(2) == 0
 		case "C34":
 			conc = true
+		case "C32":
+			// binding changes on one node by several clients at once, the engines slow to take
+			// new parameters: several re-maps of one node are in flight at the same time
+			conc = g.IntN(3) == 0
 		}
 		if conc {
 			cfg.Mode = "conc"
@@ -322,6 +329,9 @@ func (cluH) Generate(property string, seed uint64, tier string) *Case {
 			}
 			if property == "C12" && g.IntN(2) == 0 {
 				op = genCreate(g, &cfg, property)
+			}
+			if (property == "C13" || property == "C12" || property == "C10") && op.Kind == "create" && g.IntN(8) == 0 {
+				op.ClientGone = 1 + g.IntN(2)
 			}
 			if (property == "C13" || property == "C12" || property == "C11" || property == "C10") && op.Kind == "create" && g.IntN(8) == 0 {
 				// machines on which creating a container takes minutes (a large image to fetch):
@@ -468,6 +478,9 @@ func (cluH) Execute(c *Case, res *Result) {
 			break
 		}
 	}
+	if c.Property == "C32" && cfg.Mode == "conc" {
+		sim.FaultFilter = func(class, label string) bool { return false } // fault-free: the interleaving is the subject
+	}
 	setupDone := make(chan struct{})
 	sim.Go(func() {
 		ctx := context.Background()
@@ -490,6 +503,11 @@ func (cluH) Execute(c *Case, res *Result) {
 		}
 		sim.Settle()
 		sim.SetFaultsEnabled(true)
+		if c.Property == "C32" && cfg.Mode == "conc" {
+			for _, n := range sortedKeys(w.engines) {
+				w.engines[n].SetSlow("UpdateResource", 3*time.Second)
+			}
+		}
 		w.setupDone = true
 		close(setupDone)
 		if cfg.Mode != "conc" {
@@ -542,9 +560,30 @@ func (cluH) Execute(c *Case, res *Result) {
 				}
 			}
 			sim.Settle()
+			if w.prop == "C32" {
+				// re-maps still waiting for a slow engine are background work: let it run dry
+				time.Sleep(5 * time.Minute)
+				sim.Settle()
+			}
 			w.curOp = "quiescence after concurrent history"
 			w.opIndex = len(ops)
-			w.checkAll(context.Background(), "quiescence", nil)
+			st := w.checkAll(context.Background(), "quiescence", nil)
+			if w.prop == "C32" && st != nil {
+				all := map[string]bool{}
+				for n := range st.Nodes {
+					all[n] = true
+				}
+				for _, op := range ops {
+					switch op.Kind {
+					case "set_node", "node_resource":
+						w.remapDirty[w.nodeName(op.Node)] = true // capacity may change without a re-map
+					case "add_node":
+						w.remapDirty[op.NewName] = true
+					}
+				}
+				w.probe("c32_quiescence_after_concurrent_binding_changes")
+				w.checkRemap(st, all, 0, "quiescence")
+			}
 		})
 	}
 	sim.Run(nil, 4*time.Hour)
